@@ -136,6 +136,21 @@ impl Samples for RawVariants {
     fn candidates() -> Vec<Self> { vec![RawVariants::r#type, RawVariants::r#Match(1), RawVariants::Plain { r#loop: -3 }] }
 }
 
+// values at scale for the dynamic codec and the schema conformance check: hundreds of elements, most of them None
+#[derive(Serialize, Schema)] struct ManyOpts(Vec<Option<u8>>);
+#[derive(Serialize, Schema)] struct ManyRows { rows: Vec<(Option<u16>, Option<String>)>, tail: Option<Option<bool>> }
+impl Samples for ManyOpts {
+    fn max_sample() -> Self { ManyOpts((0..300).map(|i| if i % 2 == 0 { None } else { Some(i as u8) }).collect()) }
+    fn rand(r: &mut Rng) -> Self { let n = *r.pick(&[0usize, 1, 127, 128, 129, 255, 256, 257, 300, 1025]); ManyOpts((0..n).map(|_| if r.chance(2, 3) { None } else { Some(r.next() as u8) }).collect()) }
+    fn candidates() -> Vec<Self> {
+        [127usize, 128, 129, 130, 255, 256, 257, 300, 1025].iter().map(|n| ManyOpts(vec![None; *n])).chain([Self::max_sample()]).collect()
+    }
+}
+impl Samples for ManyRows {
+    fn max_sample() -> Self { ManyRows { rows: (0..200).map(|i| (if i % 3 == 0 { Some(i as u16) } else { None }, if i % 5 == 0 { Some(format!("r{}", i)) } else { None })).collect(), tail: Some(None) } }
+    fn rand(r: &mut Rng) -> Self { let n = *r.pick(&[0usize, 64, 65, 128, 129, 300]); ManyRows { rows: (0..n).map(|_| (if r.chance(1, 2) { None } else { Some(r.next() as u16) }, None)).collect(), tail: if r.chance(1, 2) { None } else { Some(Some(true)) } } }
+}
+
 // explicit discriminants out of declaration order: serde numbers variants by position, whatever `= N` says
 #[derive(Serialize, Schema)] enum Discr { Stop = 0xFF, Start = 1, Pause = 2 }
 #[derive(Serialize, Schema)] #[repr(u8)] enum DiscrData { Data(u32) = 2, Ack = 1, Pair(u8, bool) = 7, Next }
@@ -173,7 +188,7 @@ pub fn for_each_corpus_type(r: &mut Rng, n: usize, out: &mut Vec<String>, dynami
         nalgebra::SMatrix<f32, 2, 2>, nalgebra::SMatrix<u8, 2, 3>, nalgebra::SMatrix<i16, 3, 1>, nalgebra::SMatrix<f64, 1, 1>,
         postcard_schema::key::Key, OwnedDataModelType, &'static postcard_schema::schema::DataModelType, Vec<OwnedDataModelType>,
         UnitS, NewS, TupS, Tup0, Named0, Point, GenS<u8, String>, GenS<Point, Option<u16>>, Life<'static>, Nested, AllKinds, OneVar,
-        GenE<u8>, GenE<Point>, GenE<GenE<String>>, r#RawName, RawFields, RawVariants, Discr, DiscrData, Vec<AllKinds>, Option<Nested>, BTreeMap<String, AllKinds>,
+        GenE<u8>, GenE<Point>, GenE<GenE<String>>, r#RawName, RawFields, RawVariants, Discr, DiscrData, ManyOpts, ManyRows, Vec<AllKinds>, Option<Nested>, BTreeMap<String, AllKinds>,
     );
     crate::generated_schema::generated_schema_lines(r, n, out, dynamic);
 }
